@@ -81,6 +81,7 @@ pub fn configs(tier: Tier) -> Vec<String> {
         // large backing arrays: a user defined array of 384 elements, and the largest built-in one
         v.push("lock=local,shared=0,buf=user,cap=384,payload=val,nobfs=1".to_string());
         v.push("lock=local,shared=0,buf=huge,cap=65536,payload=val,nobfs=1".to_string());
+        v.push("lock=local,shared=0,buf=user70k,cap=70000,payload=val,nobfs=1".to_string());
         v.push("lock=local,shared=1,buf=huge,cap=65536,payload=val,nobfs=1".to_string());
     }
     for lock in ["local", "sync", "spin"] {
@@ -537,6 +538,7 @@ fn make_api<M: RawMutex + 'static, P: Payload>(cfg: &str) -> Box<dyn ChanApi<M, 
         (false, "array", _) => b::<M, P, ArrayBuf<P, [P; 5]>>(5, false, false),
         (false, "user", _) => b::<M, P, ArrayBuf<P, crate::ds::ringbuf::Arr384<P>>>(384, false, false),
         (false, "huge", _) => b::<M, P, ArrayBuf<P, [P; 65536]>>(65536, false, false),
+        (false, "user70k", _) => b::<M, P, ArrayBuf<P, crate::ds::ringbuf::Arr70000<P>>>(70000, false, false),
         (false, "fixed", c) => b::<M, P, FixedHeapBuf<P>>(c, false, c > 0),
         (false, _, c) => b::<M, P, GrowingHeapBuf<P>>(c, true, true),
         (true, "array", 0) => s::<M, P, ArrayBuf<P, [P; 0]>>(0, false, false),
